@@ -1,9 +1,198 @@
-import ShpanVerif.Util.Parse
-/- Driver handler for C16 (stub: replaced when the property's model lands). -/
+import ShpanVerif.Util.TsProto
+import ShpanVerif.Model.GapFill
+import ShpanVerif.Drive.C13
+/-
+Driver handler for C16.
+  case := "<period> <mode> <types> raw=<0|1> budget=<n> | <unixNanos>:<cell>;<cell>... ..."   (see harness/run/c16.go)
+  obs  := "G=<res> D=<res> R=<res>"     res := "ok:<t>=<value>,..." | "ok:-" | "run:<records>" | "err:<class>"
+Model side: `gapFill` on symbolic string values (G), `fillField` (D), `fillRows` (R) over `floatArith`.
+Spec side: the clauses of C16 evaluated on each observed result with list-level definitions:
+the expected stamps are the iterates of `stop` from the first to the last data period; a stamp that has data
+carries it unchanged; any other stamp carries the previous data value (forwardFill) or the interpolation
+between the neighbouring data points (linear).  For raw=1 the "data" of D and R is the aligned series given by
+C13's list-level spec.
+-/
 namespace ShpanVerif.Drive.C16
+open ShpanVerif.Util ShpanVerif.Util.TsProto ShpanVerif.Model.Align ShpanVerif.Model.GapFill
+
+structure Case where
+  P : Period
+  mode : String
+  types : List Char
+  raw : Bool
+  budget : Nat
+  pts : List (Int × List FCell)
+
+def parseCase (c : String) : Option Case :=
+  match splitAt "|" (words c) with
+  | [[p, mode, types, raw, budget], pts] => do
+    let P ← parsePeriod p
+    let raw ← (kv raw "raw").bind String.toNat?
+    let budget ← (kv budget "budget").bind String.toNat?
+    let pts ← parsePoints pts
+    let tys := types.toList
+    if tys.isEmpty || !(tys.all (fun ch => ch == 'i' || ch == 'f')) then none
+    else if !(pts.all (fun p => p.2.length == tys.length)) then none
+    else pure ⟨P, mode, tys, raw == 1, budget, pts⟩
+  | _ => none
+
+def modeOf (s : String) : FillMode :=
+  if s == "linear" then .linear else if s == "forwardFill" then .forwardFill else .other
+
+def FA := floatArith
+
+/-- observation / model result with values already rendered as text -/
+inductive GRes where
+  | ok (fin : Bool) (l : List (Int × String))
+  | err (c : String)
+
+def fmtGRes : GRes → String
+  | .err c => "err:" ++ c
+  | .ok _ [] => "ok:-"
+  | .ok fin l => (if fin then "ok:" else "run:") ++ ",".intercalate (l.map (fun (t, v) => s!"{t}={v}"))
+
+def parseGRes (s : String) : Option GRes :=
+  if s.startsWith "err:" then some (.err (s.drop 4).toString)
+  else if s == "ok:-" then some (.ok true [])
+  else
+    let (fin, body) := if s.startsWith "ok:" then (true, (s.drop 3).toString) else (false, (s.drop 4).toString)
+    if !(s.startsWith "ok:" || s.startsWith "run:") then none
+    else ((body.splitOn ",").mapM (fun (tok : String) =>
+      match tok.splitOn "=" with
+      | [t, v] => t.toInt?.map (fun t => (t, v))
+      | _ => none)).map (GRes.ok fin)
+
+def ofExcept {β} (f : β → String) : Except Err (List (Pt β) × Bool) → GRes
+  | .error e => .err e.toString
+  | .ok (l, fin) => .ok fin (l.map (fun p => (p.1, f p.2)))
+
+def symInterp (target t1 : Int) (v1 : String) (t2 : Int) (v2 : String) : Except Err String :=
+  .ok s!"L({target}/{t1}/{v1}/{t2}/{v2})"
+
+def zipIdx {α} (l : List α) : List (α × Nat) := l.zip (List.range l.length)
+
+def modelG (c : Case) : GRes :=
+  ofExcept id (gapFill c.P (modeOf c.mode) symInterp (fun v => s!"C({v})") c.budget
+    ((zipIdx c.pts).map (fun (p, k) => (p.1, s!"d{k}"))))
+
+def dtOf (ch : Char) : DType := if ch == 'i' then .integer else .decimal
+
+def modelD (c : Case) : GRes :=
+  match c.types with
+  | [] => .err "bad"
+  | ty :: _ =>
+    ofExcept fmtCell (fillField FA (dtOf ty) c.P (modeOf c.mode) c.budget
+      (c.pts.map (fun p => ⟨⟨p.1, 0⟩, p.2.headD (.other 0)⟩)))
+
+def modelR (c : Case) : GRes :=
+  ofExcept fmtRow (fillRows FA (c.types.map dtOf) c.P (modeOf c.mode) c.budget
+    (c.pts.map (fun p => ⟨⟨p.1, 0⟩, p.2⟩)))
+
+/-! ### the property, list level -/
+
+/-- iterate `stop` from `a` while below `b` (fuel = the step budget) -/
+def gridList (P : Period) : Nat → Int → Int → List Int
+  | 0, _, _ => []
+  | n+1, a, b => a :: (if a < b then gridList P n (P.stop a) b else [])
+
+def typedLerp (ty : Char) (t tp : Int) (vp : FCell) (tn : Int) (vn : FCell) : FCell :=
+  let r := C13.lerpF t tp (C13.cellF vp) tn (C13.cellF vn)
+  if ty == 'f' then .flt r else .int r.toInt64.toInt
+
+def zipWith3 {α β γ δ} (f : α → β → γ → δ) : List α → List β → List γ → List δ
+  | a :: as, b :: bs, c :: cs => f a b c :: zipWith3 f as bs cs
+  | _, _, _ => []
+
+/-- C13's list-level spec on rows: the aligned series of a sorted raw series -/
+def alignedSpec (P : Period) (types : List Char) (pts : List (Int × List FCell)) : List (Int × List FCell) :=
+  match pts with
+  | [] => []
+  | x0 :: _ =>
+    let bs := C13.dedupAdj (pts.map (fun p => P.start p.1))
+    match bs with
+    | [] => []
+    | b0 :: rest =>
+      (b0, x0.2) :: rest.filterMap (fun b =>
+        match (pts.filter (fun p => p.1 < b)).getLast?, pts.find? (fun p => b ≤ p.1) with
+        | some p, some y =>
+          if y.1 = b then some (b, y.2)
+          else some (b, zipWith3 (fun ty vp vn => typedLerp ty b p.1 vp y.1 vn) types p.2 y.2)
+        | _, _ => none)
+
+/-- expected text at stamp `t` given the data points `(instant, rendered value, row)` -/
+def expectedAt (c : Case) (sym : Bool) (types : List Char)
+    (data : List (Int × String × List FCell)) (t : Int) : Option String :=
+  match data.find? (fun d => d.1 = t) with
+  | some d => some d.2.1                                            -- data unchanged
+  | none =>
+    match (data.filter (fun d => d.1 < t)).getLast?, data.find? (fun d => t < d.1) with
+    | some p, some n =>
+      if c.mode == "forwardFill" then
+        some (if sym then s!"C({p.2.1})" else p.2.1)
+      else if sym then some s!"L({t}/{p.1}/{p.2.1}/{n.1}/{n.2.1})"
+      else some (fmtRow (zipWith3 (fun ty vp vn => typedLerp ty t p.1 vp n.1 vn) types p.2.2 n.2.2))
+    | _, _ => none
+
+def checkRes (c : Case) (name : String) (sym : Bool) (types : List Char)
+    (data : List (Int × String × List FCell)) (r : GRes) : Option String :=
+  match r with
+  | .err e => some s!"{name}: error {e}"
+  | .ok false _ => some s!"{name}: step budget {c.budget} reached (runaway: the stream does not end)"
+  | .ok true out =>
+    match data.head?, data.getLast? with
+    | none, _ => if out.isEmpty then none else some s!"{name}: output for an empty series"
+    | some first, some last =>
+      let grid := gridList c.P c.budget first.1 last.1
+      if out.map (·.1) != grid then some s!"{name}: stamps are not exactly the periods from the first to the last data period"
+      else if !C13.strictlyIncreasing grid then some s!"{name}: stamps not strictly increasing"
+      else out.foldl (fun acc (t, v) =>
+        match acc with
+        | some e => some e
+        | none =>
+          match expectedAt c sym types data t with
+          | none => some s!"{name}: no expected value at {t}"
+          | some w => if v == w then none else some s!"{name}: value at {t} is {v}, expected {w}") none
+    | _, _ => some s!"{name}: internal"
+
+def strictlyIncreasingOnGrid (P : Period) : List (Int × List FCell) → Bool
+  | [] => true
+  | [a] => P.start a.1 == a.1
+  | a :: b :: l => P.start a.1 == a.1 && a.1 < b.1 && strictlyIncreasingOnGrid P (b :: l)
+
+def parseObs (obs : String) : Option (GRes × GRes × GRes) :=
+  match words obs with
+  | [g, d, r] => do
+    let g ← (kv g "G").bind parseGRes
+    let d ← (kv d "D").bind parseGRes
+    let r ← (kv r "R").bind parseGRes
+    pure (g, d, r)
+  | _ => none
 
 /-- returns (model output, spec verdict on the observation, reason) -/
-def handle (_c _obs : String) : String × Bool × String :=
-  ("unimplemented", false, "no model yet")
+def handle (cs obs : String) : String × Bool × String :=
+  match parseCase cs with
+  | none => ("bad-case", false, "unparsable case")
+  | some c =>
+    let model := s!"G={fmtGRes (modelG c)} D={fmtGRes (modelD c)} R={fmtGRes (modelR c)}"
+    let wellTyped := c.pts.all (fun p => (p.2.zip c.types).all (fun (v, ty) => C13.isKind ty v))
+    let modeOk := c.mode == "linear" || c.mode == "forwardFill"
+    let sorted := C13.sortedPts (c.pts.map (fun p => (p.1, p.2.headD (.other 0))))
+    let onGrid := strictlyIncreasingOnGrid c.P c.pts
+    if !(wellTyped && modeOk && sorted && (c.raw || onGrid)) then (model, true, "")
+    else
+      match parseObs obs with
+      | none => (model, false, "unparsable observation")
+      | some (g, d, r) =>
+        let aligned := if c.raw then alignedSpec c.P c.types c.pts else c.pts
+        let dataR := aligned.map (fun p => (p.1, fmtRow p.2, p.2))
+        let dataD := aligned.map (fun p => (p.1, fmtRow (p.2.take 1), p.2.take 1))
+        let dataG := (zipIdx c.pts).map (fun (p, k) => (p.1, s!"d{k}", ([] : List FCell)))
+        let checks :=
+          (if onGrid then [checkRes c "NewTsGapFillerStream" true [] dataG g] else []) ++
+          [checkRes c "datasource.InterpolatingAlignerFilter" false (c.types.take 1) dataD d,
+           checkRes c "report.InterpolatingAlignerFilter" false c.types dataR r]
+        match checks.filterMap id with
+        | [] => (model, true, "")
+        | e :: _ => (model, false, e)
 
 end ShpanVerif.Drive.C16
